@@ -9,7 +9,6 @@
     timeout, any other exception type -- is a VIOLATION unless its site (exception type @ file:function) is listed.
 """
 import json
-import signal
 
 import cache
 import tlc
@@ -42,29 +41,14 @@ def cached(kind, wv, mb, selmod):
     return [lexmodel.Stat(s) for s in stats], r.exports, False
 
 
-class _TO(Exception):
-    pass
-
-
-def _alarm(signum, frame):
-    raise _TO()
-
-
 def _work(job):
     rec = job["rec"]
     name, text, lm = normgen.render(rec, 1)
     if rec["edit"]["op"] == "truncate":
         text = text.rstrip("\n")
-    signal.signal(signal.SIGALRM, _alarm)
-    signal.alarm(10)
-    try:
-        o = observe.run_file(text, name)
-        exc = o["exc"]
-        outcome = "fatal" if o["fatal"] else ("verdict" if exc is None else "exception")
-    except _TO:
-        exc, outcome = "Timeout", "timeout"
-    finally:
-        signal.alarm(0)
+    o = observe.run_file(text, name)          # runs under observe.watchdog: a hang comes back as exc "Hang@..."
+    exc = o["exc"]
+    outcome = "fatal" if o["fatal"] else ("verdict" if exc is None else ("timeout" if exc.startswith("Hang") else "exception"))
     res = dict(idx=job["idx"], outcome=outcome, exc=exc)
     if exc:
         res["text"] = text
